@@ -19,7 +19,7 @@ WHAT = {
 
 # what the contracts of the kernel functions decide for each pipeline property (for all inputs, discharged by SMT);
 # the quantifier over the remaining rule bodies is the part that stays with the bounded layer
-BASES = "the _fix_violation of the three most used fix bases (token_case: 243 of the 1049 rule objects inherit it unchanged, whitespace_between_tokens: 171, token_indent: 102 — 516 rules in all) against effect contracts, with the _analyze of token_indent and whitespace_between_tokens proved to establish their preconditions"
+BASES = "the _fix_violation of ten fix bases against effect contracts — token_case (243 of the 1049 rule objects inherit it unchanged), whitespace_between_tokens (171), the do-nothing default of vsg/rule.py (134: unfixable, naming and deprecated rules), token_indent (102), align_tokens_in_region_between_tokens (45 + 7 for its skipping-lines variant), blank_line_below_line_ending_with_token (36), previous_line (25), blank_line_above_line_starting_with_token (16), consistent_token_case (10), remove_excessive_blank_lines_above_line_starting_with_token (5): 794 rules in all — with the _analyze of token_indent and whitespace_between_tokens proved to establish their preconditions (the preconditions of the other bases are assumed and observed by the bounded layer)"
 DED = {
     "C01": "vhdlFile.update is the splice of the analysed regions (everything in front of the first region keeps identity and place; one region: exactly old[:start] + new + old[end:]); remove_beginning_of_file_tokens is a filter; " + BASES + ": every non-white-space token of the region is the same object in the same order, token_case changes the first token's value in letter case only and keeps its length; the phase-1 normalisers (fix_blank_lines, fix_trailing_whitespace) keep every non-blank token and every line break",
     "C02": BASES + ": non-white-space tokens (so every comment, pragma and preprocessor token of the region) are the same objects in the same order with unchanged values; the phase-1 normalisers keep them too",
@@ -34,11 +34,16 @@ DED = {
 }
 
 
+def fix_bases(engine):
+    """every _fix_violation under contract (contracts/fixes.py) plus the default implementation in vsg/rule.py"""
+    return sorted(q for q in engine.contracts if q.endswith("._fix_violation") and q.startswith("vsg.rules.")) + ["vsg.rule.Rule._fix_violation@impl"]
+
+
 def meta(pid, extra_note=""):
     return {
         "level": "other",
         "technique": "contract-based deductive verification (pyvc: contracts on the real functions, VCs from the real AST, cvc5/z3) of the kernel functions the property depends on; the quantifier over all rule bodies is covered by runtime evaluation of the same effect contracts at the choke points of the real code (Rule.fix, Rule.analyze, vhdlFile.update, rule_list.fix) over a finite universe of inputs: a labelled bounded stand-in, not a proof",
-        "text": "PROVED for all inputs (kernel): " + DED[pid] + ". BOUNDED (the property itself, every rule): " + WHAT[pid] + ". The other fix bases (about half of the rules) are not under contract (DESIGN.md section 2 lists which are), hence level 'other'.",
+        "text": "PROVED for all inputs (kernel): " + DED[pid] + ". BOUNDED (the property itself, every rule): " + WHAT[pid] + ". The other fix bases (about a quarter of the rules, mostly phase-1 structure rules) are not under contract (DESIGN.md section 2 lists which are), hence level 'other'.",
         "note": "Universe of the bounded part: repository fixtures x 3 configurations + 2 input variants + generated micro designs. Known findings of the unchanged tree are listed in known_findings.json by (rule, file, configuration, variant). Assumed: abstract contracts of Rule.analyze / Rule._fix_violation (virtual), process_tokens (INDEX stub), P_update (regions ascending and disjoint) as hypothesis of the splice clauses. Trusted: pyvc, SMT solvers, CPython-validated lemma schemas." + extra_note,
     }
 
@@ -78,4 +83,30 @@ def pipeline_part(c, pid):
         "rule": WHAT[pid] + "; one evaluation = one instrumented run of a (file, configuration, variant); non-trivial = accepted by VSG and at least one rule changed the file or reported a violation",
     }
     c.samples.extend([{"job": r["job"], "stats": {k: v for k, v in r["stats"].items() if k in ("rule_fixes", "rule_fixes_changed", "regions", "seconds")}} for r in res[:2]])
+    # run-time evaluation of the sidecar contracts of the fix bases at every real _fix_violation call (bounded/monitor.py)
+    if pid in ("C01", "C02", "C03", "C07", "C10"):
+        calls = sum(r["stats"].get("contracts", {}).get("calls", 0) for r in res)
+        npre = sum(r["stats"].get("contracts", {}).get("n_pre_false", 0) for r in res)
+        posts = [(r["job"], x) for r in res for x in r["stats"].get("contracts", {}).get("post_fail", [])]
+        pres = [(r["job"], x) for r in res for x in r["stats"].get("contracts", {}).get("pre_false", [])]
+        c.bounded["contract_monitor"] = {
+            "evaluations": calls,
+            "distinct_nontrivial": calls - npre,
+            "precondition_false": npre,
+            "postcondition_false": len(posts),
+            "rule": "requires/ensures text of contracts/fixes.py evaluated by CPython around every real _fix_violation call of the pipeline runs (bases under contract only); non-trivial = the assumed precondition V_F held; a false precondition is an unmet ASSUMPTION of the deductive part (reported, not a violation), a false postcondition is a finding",
+            "examples_precondition_false": [list(x) for _, x in pres[:5]],
+        }
+        for job, x in pres[:3]:
+            print("ASSUMPTION-NOT-MET: property=%s precondition V_F of %s._fix_violation is false at a real call (rule %s, line %s, action %s, region %s) in %s" % (pid, x[0], x[1], x[2], x[3], x[4], job[0]))
+        seen2 = set()
+        for job, x in posts:
+            if (x[0], x[1]) in seen2:
+                continue
+            seen2.add((x[0], x[1]))
+            qn = [q for q in c.engine.contracts if q.endswith("." + x[0] + "._fix_violation")] if c.engine else []
+            proved = qn and all(r["verdict"] == "unsat" for r in c.obl_results if r["name"].startswith(qn[0] + "#") and r["kind"] != "reach") and any(r["name"].startswith(qn[0] + "#") for r in c.obl_results)
+            if proved:
+                raise CheckerFault("contract of %s._fix_violation is discharged symbolically but fails at a real call: %s" % (x[0], x[3]))
+            c.findings.append(Finding("crosscheck", "monitor:%s" % x[0], "%s (rule %s, line %s) in %s [%s]" % (x[3], x[1], x[2], job[0], job[1]), {"function": x[0] + "._fix_violation", "failing_input": {"file": job[0], "config": job[1], "variant": job[2], "rule": x[1], "line": x[2]}, "observed": x[3]}, "%s|%s" % (x[1], job[0])))
     return res
